@@ -6,9 +6,10 @@ CONSTANTS
   N = 3
   Hists = {3}
   MaxLen = 2
+  ForkMaxLen = 2
   Forks = {0, 1, 2}
   ForkCkpts = TRUE
-  PinOffsets = {-1, 0, 1}
+  PinOffsets = {0, 1, 2}
   Roles = {"Reader", "Writer"}
   SeekBeyond = TRUE
   StepModes <- MC_StepModesAll
